@@ -1,4 +1,5 @@
 """C18 — P2P messages: framing, payload layout and stream parsing exact and invertible."""
+import copy
 import io
 import ipaddress
 
@@ -238,6 +239,31 @@ def _check(case, chain):
                 i = next((k for k, (a, b) in enumerate(zip(got, F)) if a != b), min(len(got), len(F)))
                 raise Violation('layout/%s/%s' % (t, part), '%s frame differs from the protocol layout at byte %d (library %d bytes, protocol %d): '
                                 '..%s vs ..%s' % (t, i, len(got), len(F), got[max(0, i - 4):i + 8].hex(), F[max(0, i - 4):i + 8].hex()))
+            # frame, edit the SAME message object in place (its mutable transaction, its lists, its nonce), frame again: the second
+            # frame is that of the current field values, not a remembered one
+            m2 = None
+            if t == 'tx':
+                m2 = copy.deepcopy(m); m2['tx']['locktime'] = m['tx']['locktime'] ^ 1
+                o2 = libx.call('build/' + t, build, m)[1]
+                o2.tx = libx.mk_tx(W.tx_from_json(m['tx']), True)
+                if libx.call('to_bytes/' + t, o2.to_bytes)[1] != F:
+                    raise Violation('layout/tx/mutable', 'tx message holding a CMutableTransaction frames differently')
+                o2.tx.nLockTime = m2['tx']['locktime']
+            elif t == 'addr' and m['addrs']:
+                m2 = copy.deepcopy(m); m2['addrs'].append(copy.deepcopy(m['addrs'][0]))
+                o2 = libx.call('build/' + t, build, m)[1]; o2.to_bytes(); o2.addrs.append(mk_addr(m['addrs'][0]))
+            elif t in ('inv', 'getdata', 'notfound') and m['inv']:
+                m2 = copy.deepcopy(m); m2['inv'].append(list(m['inv'][0]))
+                o2 = libx.call('build/' + t, build, m)[1]; o2.to_bytes()
+                c_ = CInv(); c_.type = m['inv'][0][0]; c_.hash = bytes.fromhex(m['inv'][0][1]); o2.inv.append(c_)
+            elif t in ('ping', 'pong'):
+                m2 = dict(m, nonce=m['nonce'] ^ 1)
+                o2 = libx.call('build/' + t, build, m)[1]; o2.to_bytes(); o2.nonce = m2['nonce']
+            if m2 is not None:
+                F2 = R.frame(magic, t, R.payload(norm(m2)))
+                if libx.call('to_bytes-after-edit/' + t, o2.to_bytes)[1] != F2:
+                    raise Violation('layout/%s/stale-after-edit' % t, '%s message framed, edited in place and framed again: the second frame is not '
+                                    'that of the current field values' % t)
             # the other two ways of framing the same message object (Serializable interface) give the same bytes
             g = io.BytesIO()
             libx.call('stream_serialize/' + t, o.stream_serialize, g)
@@ -523,6 +549,26 @@ def t_big_vectors(ctx):
     if ctx.shard == 2 % ctx.nshards:
         for ip in ('1.2.3.4', '::1', '2001:db8::5', '0.0.0.0'):
             ctx.run({'kind': 'shared-addr', 'time': 1234567, 'services': 9, 'ip': ip, 'port': 8333})
+    if ctx.shard == 3 % ctx.nshards:
+        # two DIFFERENT transactions of the same length whose frames carry the SAME four checksum bytes (found by a birthday
+        # search over the lock time, ~80,000 hashes): in one stream, in both orders - whatever the parser remembers about
+        # frames it has seen, a frame is what its bytes say
+        base_tx = {'version': 1, 'vin': [['09' * 32, 1, '51', 0xfffffffe]], 'vout': [[7, '51']], 'wit': None, 'locktime': 0}
+        E0 = W.enc_tx(W.tx_from_json(base_tx))
+        seen_, pair = {}, None
+        for lt in range(0, 1200000):
+            c4 = H.dsha(E0[:-4] + lt.to_bytes(4, 'little'))[:4]
+            if c4 in seen_:
+                pair = (seen_[c4], lt)
+                break
+            seen_[c4] = lt
+        del seen_
+        if pair:
+            A, B = (dict(base_tx, locktime=pair[0]), dict(base_tx, locktime=pair[1]))
+            ctx.run({'chain': 'mainnet', 'msgs': [{'type': 'tx', 'tx': A}, {'type': 'tx', 'tx': B}, {'type': 'tx', 'tx': A}, {'type': 'ping', 'nonce': 5},
+                                                   {'type': 'tx', 'tx': B}]})
+            ctx.run({'chain': 'testnet', 'msgs': [{'type': 'tx', 'tx': B}, {'type': 'tx', 'tx': A}]})
+            ctx.exhaustive.append('two transactions of equal length with colliding frame checksums (lock times %d / %d), interleaved in one stream' % pair)
     if ctx.shard == 0:
         ctx.exhaustive.append('7 vector-bearing message types x {252, 253, 254, 1000} entries, each followed by a 2-entry and the same big message')
 
